@@ -354,4 +354,69 @@ theorem C11_history_failed_unobservable (db : DB) (h₁ h₂ : List Txn) (x : Tx
   rw [runHistory_append, runHistory_append, runHistory_cons, C11_inert_txn _ x hx]
   exact ⟨rfl, _, rfl, rfl⟩
 
+/-! ## concurrent `Batch` callers -/
+
+/-- **Concurrent `walletdb.Batch` callers** writing different entries: each caller gets exactly the answer of a solo run
+(nil ⇒ its write is in the database, error/panic ⇒ it is not), and the resulting database does not depend on the order
+in which bbolt happened to run (or re-run) them. -/
+theorem C11_batch_calls_commute (db : DB) (c₁ c₂ : BatchCall) (hne : c₁.p ++ [c₁.k] ≠ c₂.p ++ [c₂.k]) :
+    (batchCall (batchCall db c₁).1 c₂).2 = (batchCall db c₂).2 ∧
+    (batchCall (batchCall db c₂).1 c₁).2 = (batchCall db c₁).2 ∧
+    (batchCall (batchCall db c₁).1 c₂).1 = (batchCall (batchCall db c₂).1 c₁).1 :=
+  batchCall_commute db c₁ c₂ hne
+
+/-- a `Batch` caller that is answered nil has its write in the database; one that is answered an error or panics has
+changed nothing. -/
+theorem C11_batch_call_result (db : DB) (c : BatchCall) :
+    ((batchCall db c).2 = .ok → getVal (batchCall db c).1 c.p c.k = some c.v) ∧
+    ((batchCall db c).2 ≠ .ok → (batchCall db c).1 = db) := by
+  rw [batchCall_eq]
+  unfold batchCallSpec
+  rw [put_eq]
+  cases isBucket db c.p <;> cases putErr c.k c.v db[c.p ++ [c.k]]? <;> cases c.o <;>
+    simp [getVal]
+
+/-! ## non-vacuity: concrete instances of the hypotheses used above -/
+
+/-- a database with one top-level bucket `01`. -/
+def exDB : DB := ({} : DB).insert [[1]] (.bucket 0)
+
+/-- a failing program that really writes: creates bucket `02`, puts `03 ↦ 04` into bucket `01`. -/
+def exProg : List Op := [.createBucketIfNotExists [] [2], .put [[1]] [3] [4], .nextSequence [[1]]]
+
+example : Op.commit ∉ exProg ∧ Outcome.panic ≠ Outcome.ok := by decide
+
+/-- the working state of that failing transaction differs from the database (so atomicity discards something). -/
+example : (runOps (Kind.update.begin exDB) exProg).1.work[([[1], [3]] : Path)]? = some (.val [4]) ∧
+    exDB[([[1], [3]] : Path)]? = none ∧ (update exDB exProg .panic).1 = exDB := by
+  refine ⟨by decide, by decide, (C11_update_atomic _ _ _ (by decide) (by decide)).1⟩
+
+/-- the hypothesis of `C11_read_your_writes` holds for a plain `Put` into an existing bucket. -/
+example : (step (Kind.update.begin exDB) (.put [[1]] [3] [4])).2 = .ok := by decide
+
+/-- a complete instance of the cursor theorems: three keys inserted out of order come back sorted, both ways. -/
+example :
+    (runOps (Kind.update.begin exDB)
+      [.put [[1]] [9] [0], .put [[1]] [3] [0], .put [[1]] [5, 0] [0], .createBucket [[1]] [5],
+       .curOpen 0 [[1]], .curFirst 0, .curNext 0, .curNext 0, .curNext 0, .curNext 0,
+       .curLast 0, .curPrev 0, .curSeek 0 [4], .curSeek 0 [9, 1]]).2.drop 5 =
+    [.entry (some ([3], some [0])), .entry (some ([5], none)), .entry (some ([5, 0], some [0])),
+     .entry (some ([9], some [0])), .entry none,
+     .entry (some ([9], some [0])), .entry (some ([5, 0], some [0])),
+     .entry (some ([5], none)), .entry none] := by decide
+
+/-- `Untouched`: writing another key of the same bucket and a key of another bucket leaves entry `01/03` alone. -/
+example (t : Tx) : Untouched ([[1]] ++ [[3]]) t [.put [[1]] [9] [9], .delete [[2]] [3], .get [[1]] [3]] := by
+  simp [Untouched, footprint]
+
+/-- `Outside`: calls on the sibling bucket `02` and on a child `01/05/…` of a *different* branch are outside `01/07`. -/
+example (t : Tx) : Outside [[1], [7]] t [.put [[2]] [9] [9], .deleteBucket [[1], [5]] [6], .setSequence [[2]] 4] := by
+  simp [Outside, callBucket]
+
+example : (Txn.mk .update exProg .err).inert = true ∧ (Txn.mk .update exProg .ok).inert = false ∧
+    (Txn.mk .view exProg .ok).inert = true := by decide
+
+example : (batchCalls exDB [⟨[[1]], [7], [], .ok⟩, ⟨[[1]], [8], [1], .err⟩, ⟨[[1]], [], [1], .ok⟩]).2
+    = [.ok, .err .user, .err .keyRequired] := by decide
+
 end KV
